@@ -256,6 +256,43 @@ impl MemSource {
     }
 }
 
+/// POSIX permission + special bits (0o7777) and entry kind -> Go's `fs.FileMode` as stored in trees
+/// (what the real file-system source does)
+pub fn to_go_mode(posix: u32, is_dir: bool, is_symlink: bool) -> u32 {
+    let mut m = posix & 0o777;
+    if is_dir {
+        m |= 1 << 31;
+    }
+    if is_symlink {
+        m |= 1 << 27;
+    }
+    if posix & 0o4000 != 0 {
+        m |= 1 << 23;
+    }
+    if posix & 0o2000 != 0 {
+        m |= 1 << 22;
+    }
+    if posix & 0o1000 != 0 {
+        m |= 1 << 20;
+    }
+    m
+}
+
+/// Go `fs.FileMode` -> POSIX permission + special bits
+pub fn from_go_mode(go: u32) -> u32 {
+    let mut m = go & 0o777;
+    if go & (1 << 23) != 0 {
+        m |= 0o4000;
+    }
+    if go & (1 << 22) != 0 {
+        m |= 0o2000;
+    }
+    if go & (1 << 20) != 0 {
+        m |= 0o1000;
+    }
+    m
+}
+
 fn ts(ns: i128) -> Option<jiff::Timestamp> {
     jiff::Timestamp::from_nanosecond(ns).ok()
 }
@@ -270,7 +307,7 @@ pub fn node_of(name: &[u8], e: &Entry, raw_name: Option<&String>) -> Node {
         ),
     };
     let meta = Metadata {
-        mode: e.meta.mode,
+        mode: e.meta.mode.map(|m| to_go_mode(m, matches!(e.ent, Ent::Dir(_)), matches!(e.ent, Ent::Symlink(_)))),
         mtime: e.meta.mtime.and_then(ts),
         atime: None,
         ctime: e.meta.ctime.and_then(ts),
